@@ -19,5 +19,7 @@ CONSTANTS
   UseEpochs = TRUE
   OccSet = {FALSE, TRUE}
   MinCleanSegs = 1
+  UseRevReaders = TRUE
+  UseFaults = FALSE
   UseReaders = TRUE
 CHECK_DEADLOCK FALSE
